@@ -119,3 +119,45 @@ def placeholder(t: str, p: str, positional: bool) -> bool:
     out = b.output_buffer_to_string()
     want = p + ((t + '\n') if t else '\n')
     return hx.ok(out == want)
+
+
+@hx.harness(props=['C18'], targets=_TG + ['stone.backend:CodeBackend.generate_multiline_list'],
+            items=['compact', 'expanded', 'expanded-skip'],
+            bound='generate_multiline_list with 0..3 items, each a symbolic string <= 1 char over {a, b, {} (items may be '
+                  'equal), fixed before/after/delimiters; compact, expanded, expanded with skip_last_sep', outside=_OUT[:2],
+            budget=(300, 900), glue=['install_py_format'])
+def multiline_list(x: str, y: str, z: str, n: int) -> bool:
+    """
+    pre: len(x) <= 1 and len(y) <= 1 and len(z) <= 1
+    pre: re.fullmatch('[ab{]*', x + y + z)
+    pre: 0 <= n <= 3
+    post: _
+    """
+    items = [x, y, z][:n]
+    compact = hx.ITEM == 'compact'
+    skip = hx.ITEM == 'expanded-skip'
+    b = _B('/x', [])
+    b.generate_multiline_list(items, before='f', after=';', delim=('(', ')'), compact=compact, sep=',',
+                              skip_last_sep=skip)
+    out = b.output_buffer_to_string()
+    # reference pretty-printer (backend_ref.rst: one item per line)
+    if n == 0:
+        want = 'f();\n'
+    elif n == 1:
+        want = 'f(' + items[0] + ');\n'
+    elif compact:
+        lines = ['f(' + items[0] + ',']
+        for k in range(1, n):
+            last = k == n - 1
+            body = items[k] + (');' if last else ',')
+            lines.append(('  ' + body) if body else '')
+        want = '\n'.join(lines) + '\n'
+    else:
+        lines = ['f(']
+        for k in range(n):
+            last = k == n - 1
+            body = items[k] + ('' if (last and skip) else ',')
+            lines.append(('    ' + body) if body else '')
+        lines.append(');')
+        want = '\n'.join(lines) + '\n'
+    return hx.ok(out == want)
